@@ -59,28 +59,29 @@ def ob_pattern(ob):
     except Unsupported as e:
         return result('inconclusive', notes=[f'unsupported node {e}'])
     pre, cfg = host_for(name)
-    queries = 0
-    solver_s = 0.0
+    st = {'queries': 0, 'solver_s': 0.0, 'unknown': None}
     rejected = []
-    confirmed = None
-    for kind in ('eda', 'chain'):
+    WS = ' \t\n\r'
+
+    def search(kind, exclude_chars=()):
+        """first witness of this kind that the timed replay confirms, else None"""
         excl = set()
         for attempt in range(ob.params.get('attempts', 6)):
             if kind == 'eda':
-                r, dt, w = A.eda(K=K, exclude_states=excl, timeout=ob.params.get('cap', 120))
+                r, dt, w = A.eda(K=K, exclude_states=excl, timeout=ob.params.get('cap', 120), exclude_chars=exclude_chars)
             else:
                 r, dt, w = A.chain(k=kchain, exclude_states=excl, timeout=ob.params.get('cap', 120))
-            queries += 1
-            solver_s += dt
+            st['queries'] += 1
+            st['solver_s'] += dt
             if r == 'unknown':
-                return result('inconclusive', notes=[f'{kind} query unknown'], queries=queries, solver_s=round(solver_s, 2))
+                st['unknown'] = kind
+                return None
             if r != 'sat':
-                break
+                return None
             prefix = A.prefix_to(w['state'])
             if prefix is None:
                 excl.add(w['state'])
                 continue
-            found = None
             pumps = [w['pump']]
             if kind == 'chain':
                 # a run that alternates two characters of the common class can defeat sre's single-character fast paths
@@ -89,6 +90,7 @@ def ob_pattern(ob):
                     common &= set(A.nfa.ch[q_][0])
                 reps = [c for c in (' ', '\n', '\t', '.', '-', ',') if c in common] or sorted(common)[:2]
                 pumps += [a_ + b_ for a_ in reps[:3] for b_ in reps[:3] if a_ != b_][:4]
+            dt2 = None
             for pump in pumps:
                 for suffix in ('x', '~', ''):
                     room = MAXLEN - len(pre) - len(prefix) - len(suffix)
@@ -96,29 +98,58 @@ def ob_pattern(ob):
                     text = pre + prefix + pump * n + suffix
                     is_slow, dt2 = slow(text, cfg)
                     if is_slow:
-                        found = (text, dt2)
-                        w = dict(w, pump=pump)
-                        break
-                if found:
-                    break
-            if found:
-                confirmed = dict(w, text=found[0], seconds=found[1])
-                break
+                        return dict(w, pump=pump, text=text, seconds=dt2)
             rejected.append({'kind': kind, 'group': w['group'], 'pump': w['pump'], 'prefix': prefix, 'seconds': dt2})
             excl.add(w['state'])
-        if confirmed:
+        return None
+
+    # Exponential witnesses are sought by classes of pump, so that one ambiguity of a pattern does not hide another: after a
+    # confirmed pump containing white space the search is repeated without white space, after one containing letters (a
+    # through-word) without letters as well.  Each class is reported under its own key.
+    LETTERS = ''.join(c for c in UCH if c.isalpha())
+    found = []          # [(key, witness)]
+    excluded = ''
+    levels_run = 0
+    for level in range(3):
+        c = search('eda', exclude_chars=excluded)
+        levels_run += 1
+        if c is None:
             break
+        has_ws, has_let = any(ch in WS for ch in c['pump']), any(ch in LETTERS for ch in c['pump'])
+        key = f'redos:eda:{name}' if has_ws else f'redos:eda:{name}:word-pump' if has_let else f'redos:eda:{name}:punctuation-pump'
+        found.append((key, c))
+        if has_ws:
+            excluded += WS
+        elif has_let:
+            excluded += LETTERS
+        else:
+            break
+    if not found and not st['unknown']:
+        c = search('chain')
+        if c is not None:
+            found.append((f'redos:chain:{name}', c))
+    confirmed = found[0][1] if found else None
+    queries, solver_s = st['queries'], st['solver_s']
+    if st['unknown'] and confirmed is None:
+        return result('inconclusive', notes=[f"{st['unknown']} query unknown"], queries=queries, solver_s=round(solver_s, 2))
     info = dict(queries=queries, distinct=queries, solver_s=round(solver_s, 2), states=A.nfa.n, transitions=A.nfa.n_edges(),
                 bound=f'EDA pump length <= {K}; polynomial chains of >= {kchain} loops on one character; inputs <= {MAXLEN} chars',
                 samples=[{'pattern': name, 'nfa_states': A.nfa.n, 'rejected_candidates': rejected[:4],
-                          'confirmed': confirmed and {k: confirmed[k] for k in ('kind', 'group', 'pump', 'seconds')}}])
+                          'confirmed': confirmed and {k: confirmed[k] for k in ('kind', 'group', 'pump', 'seconds')},
+                          'eda_searches': levels_run,
+                          'further_confirmed': [{'key': k_, 'pump': c_['pump'], 'group': c_['group']} for k_, c_ in found[1:]]}])
     if confirmed is None:
         return result('holds', **info)
-    return result('violated', violations=[violation(
-        f'redos:{confirmed["kind"]}:{name}',
-        f'{name}: {confirmed["kind"]} witness (pump {confirmed["pump"]!r}, group {confirmed["group"]}); a {len(confirmed["text"])}-character '
-        f'description takes {"more than 8" if confirmed["seconds"] is None else round(confirmed["seconds"], 1)} s (threshold {THRESHOLD} s)',
-        'c16_time', {'text': confirmed['text'], 'config': cfg})], **info)
+    if st['unknown']:
+        info['notes'] = [f"a further {st['unknown']} query (restricted pump alphabet) came back unknown"]
+
+    def mk(c, key):
+        return violation(
+            key, f'{name}: {c["kind"]} witness (pump {c["pump"]!r}, group {c["group"]}); a {len(c["text"])}-character '
+            f'description takes {"more than 8" if c["seconds"] is None else round(c["seconds"], 1)} s (threshold {THRESHOLD} s)',
+            'c16_time', {'text': c['text'], 'config': cfg})
+    vs = [mk(c, key) for key, c in found]
+    return result('violated', violations=vs, **info)
 
 
 def ob_growth(ob):
